@@ -190,6 +190,8 @@ class Machine:
         s.nl = False
         s.last_solver = s.solver
         s.band_memo = {}
+        s.band_nofork = False
+        s.in_ranges = {}
         s.btrace = []
         s.band_strict = []
         s.max_steps = s.opts.get('max_steps', 30000000)
@@ -728,7 +730,11 @@ class Machine:
                     # sound only if it is provably at least tau away from zero on this path
                     tau = max(Fraction(1, 10 ** 9), 8 * B.err)
                     near = z3.And(B.t > rv(-tau), B.t < rv(tau))
-                    if s.check(near): raise ExecError('division by an inexact symbolic value that can be within %g of zero' % float(tau))
+                    if s.check(near):
+                        # feasible over the reals; the harness inputs are integers, so ask again over the integers
+                        if s.exists_integer_point(near):
+                            raise ExecError('division by an inexact symbolic value that can be within %g of zero' % float(tau))
+                        s.stats['near_zero_divisor_excluded_over_integers'] += 1
                     s.add_pc(z3.Not(near)); s.stats['div_away_from_zero'] += 1
                     if s.decide(SymB(B.t > 0)): B = SymF(B.t, max(B.lo, tau - B.err), B.hi, B.ex, B.err)
                     else: B = SymF(B.t, B.lo, min(B.hi, -(tau - B.err)), B.ex, B.err)
@@ -823,6 +829,14 @@ class Machine:
         ka = A.t.get_id(); kb = B.t.get_id()
         canon, pos = {'lt': ('lt', True), 'le': ('le', True), 'gt': ('le', False), 'ge': ('lt', False),
                       'eq': ('eq', True), 'ne': ('eq', False)}[base]
+        if s.band_nofork:
+            # harness oracle code (branch-free): keep the comparison as a may/must pair instead of deciding it here
+            if base == 'lt': return SymB(d < S, d < NS)
+            if base == 'le': return SymB(d <= S, d <= NS)
+            if base == 'gt': return SymB(d > NS, d > S)
+            if base == 'ge': return SymB(d >= NS, d >= S)
+            if base == 'eq': return SymB(z3.And(d <= S, d >= NS), z3.BoolVal(False))
+            return SymB(z3.BoolVal(True), z3.Or(d > S, d < NS))
         prev = s.band_memo.get((canon, ka, kb))
         if prev is not None:
             s.stats['band_memo_hits'] += 1
@@ -852,6 +866,15 @@ class Machine:
         vals = s.model()
         if all(fr.denominator == 1 for (n, k, fr) in vals if k != 'real'): return vals
         s.stats['int_rechecks'] += 1
+        ints_ = [(n, v) for (n, v, k) in s.inputs if k == 'int']
+        size_ = 1
+        for (n, v) in ints_:
+            lo_, hi_ = s.in_ranges.get(n, (0, 1 << 40)); size_ *= (hi_ - lo_ + 1)
+        if size_ <= 20000 and not any(k == 'real' for (n, v, k) in s.inputs):
+            # small integer domain: find an integral point by exhaustive evaluation instead of nonlinear integer solving
+            pt = s.enum_integer_point(extra, ints_)
+            if pt is None: return None
+            return [(n, k, (Fraction(pt[n]) if n in pt else fr)) for (n, k, fr) in vals]
         sub = []; ivars = {}
         for (n, v, k) in s.inputs:
             if k == 'int' and z3.is_real(v):
@@ -868,6 +891,38 @@ class Machine:
             raise ExecError('integer re-check of a relaxed model returned unknown')
         m2 = s2.model()
         return [(n, k, z3frac(m2.eval(ivars[n] if n in ivars else v, model_completion=True))) for (n, v, k) in s.inputs]
+
+    def exists_integer_point(s, extra):
+        """is pc /\\ extra satisfied by some assignment of INTEGERS to the integer inputs?  Decided by exhaustive evaluation
+        when the integer inputs span at most 20000 points (exact: substitution + simplification, no solver); otherwise by the
+        integer re-solve of int_model."""
+        ints = [(n, v) for (n, v, k) in s.inputs if k == 'int']
+        if any(k == 'real' for (n, v, k) in s.inputs): return s.int_model(extra) is not None
+        size = 1
+        for (n, v) in ints:
+            lo, hi = s.in_ranges[n]; size *= (hi - lo + 1)
+        if size > 20000: return s.int_model(extra) is not None
+        return s.enum_integer_point(extra, ints) is not None
+
+    def enum_integer_point(s, extra, ints):
+        import itertools
+        cons = ([extra] if extra is not None else []) + list(reversed(s.pc))
+        s.stats['integer_enumerations'] += 1
+        for combo in itertools.product(*[range(s.in_ranges[n][0], s.in_ranges[n][1] + 1) for (n, v) in ints]):
+            sub = [(v, (z3.RealVal(c) if z3.is_real(v) else z3.IntVal(c))) for ((n, v), c) in zip(ints, combo)]
+            ok = True
+            for c_ in cons:
+                r = z3.simplify(z3.substitute(c_, *sub))
+                if z3.is_false(r): ok = False; break
+                if not z3.is_true(r):
+                    # still contains auxiliary (sqrt/angle) variables: ask the solver for this point
+                    s2 = z3.Solver(); s2.set('timeout', 5000)
+                    for c2 in cons: s2.add(z3.substitute(c2, *sub))
+                    rr = s2.check()
+                    if rr == z3.unknown: return dict(zip([n for (n, v) in ints], combo))
+                    ok = (rr == z3.sat); break
+            if ok: return dict(zip([n for (n, v) in ints], combo))
+        return None
 
     def subst(s, vals):
         by = {n: fr for (n, k, fr) in vals}
@@ -1559,6 +1614,7 @@ def x_int_in(s, fr, ins, a):
         if not (lo <= v <= hi): raise PathEnd('assume_false')
         return v & 0xffffffff
     v = s.fresh_input('int'); s.add_pc(z3.And(v >= lo, v <= hi))
+    s.in_ranges[s.inputs[-1][0]] = (lo, hi)
     return SymI(v, lo, hi, 32)
 def x_double_in(s, fr, ins, a):
     lo = Fraction(a[0]); hi = Fraction(a[1])
@@ -1575,6 +1631,8 @@ def x_choice(s, fr, ins, a):
         if s.decide_free(): c = i; break
     s.inputs.append(('in%d' % len(s.inputs), z3.IntVal(c), 'choice'))
     return c
+def x_band_nofork(s, fr, ins, a):
+    s.band_nofork = bool(a[0] & 1); return None
 def x_heap_order(s, fr, ins, a):
     s.heap_order = a[0] & 1; return None
 def x_assume(s, fr, ins, a):
@@ -1757,7 +1815,7 @@ EXTERNALS = {
     '@memcpy': x_memcpy, '@memmove': x_memcpy, '@memset': x_memset,
     '@fabs': x_fabs, '@sqrt': x_sqrt,
     '@nondet_int': x_nondet_int, '@verif_int_in': x_int_in, '@verif_double_in': x_double_in,
-    '@verif_choice': x_choice, '@verif_heap_order': x_heap_order,
+    '@verif_choice': x_choice, '@verif_heap_order': x_heap_order, '@verif_band_nofork': x_band_nofork,
     '@__CPROVER_assume': x_assume, '@__CPROVER_assert': x_assert,
     '@verif_out_double': x_out, '@verif_out_int': x_out,
     '@__assert_fail': x_assert_fail, '@abort': x_abort, '@_ZSt9terminatev': x_terminate,
@@ -1968,8 +2026,17 @@ def _explore_chunk(args):
         if res == 'ok' and len(R['samples']) < 2:
             try:
                 vals = M.int_model()
+                outs = []
+                if vals:
+                    sub_ = M.subst(vals)
+                    for o in M.outputs[:12]:
+                        try:
+                            ev_, tol_ = M.eval_out(o, sub_)
+                            outs.append(repr(float(ev_)) if ev_ is not None else '?')
+                        except Exception:
+                            outs.append('symbolic')
                 R['samples'].append(dict(inputs=[fmt_val(k, fr) for (n, k, fr) in vals] if vals else None,
-                                         outputs=[str(o.t)[:120] if isinstance(o, (SymF, SymI, SymB)) else repr(o) for o in M.outputs[:12]],
+                                         outputs_under_these_inputs=outs, symbolic_outputs=sum(1 for o in M.outputs if isinstance(o, (SymF, SymI, SymB))),
                                          decisions=len(M.decisions), steps=M.nsteps))
             except ExecError:
                 pass
